@@ -120,6 +120,10 @@ func main() {
 			}()
 			props.Run(id, r)
 		}()
+		if *tier == "thorough" {
+			r.Controls = props.RunControls(id, *repo, *verif, r, findings)
+			fmt.Printf("%s controls: attempted %d, compiled %d, detected %d, missed %d\n", id, r.Controls.Attempted, r.Controls.Compiled, r.Controls.Detected, len(r.Controls.Missed))
+		}
 		if rc := r.Finish(*verif, findings, replayKey); rc != 0 {
 			exit = 1
 		}
